@@ -2349,3 +2349,74 @@ func c03r10(c *RC) {
 	})
 	c.Floor("waiter goroutines in Eval", nw, 1)
 }
+
+// C12-R9: a discarded task stays parked until the worker has let go of it.
+//
+// (*bigmachineExecutor).Discard parks an OK task in TaskRunning and hands it
+// to (*sliceMachine).Discard, which owns it until it sets TaskLost.  The
+// worker's copy (its own task state and the stored partitions) is released by
+// the "Worker.Discard" RPC.  If the task is set lost *before* that RPC, an
+// evaluation woken by the broadcast can resubmit the task and have its
+// "Worker.Run" reach the worker first: the worker still holds the task as OK,
+// answers success without recomputing, and the late Worker.Discard then
+// deletes the output — the driver believes in a result that no longer
+// exists, and every consumer is lost until it fails for good.  Decided on the
+// owned path of (*sliceMachine).Discard (the statements after the early
+// return for tasks the machine does not own): the Worker.Discard call comes
+// before any write of the task's state, and a write of TaskLost follows it on
+// every path (also when the RPC fails).
+func c12r9(c *RC) {
+	pr := c.P
+	fn := c.MustFn("exec.(*sliceMachine).Discard")
+	if fn == nil {
+		return
+	}
+	fq := fn.QName()
+	isRPC := func(st ast.Stmt) bool {
+		found := false
+		inspectNoLit(st, func(m ast.Node) bool {
+			if k, ok := m.(*ast.CallExpr); ok && strings.HasSuffix(fn.Pkg.CalleeName(k), "RetryCall") && len(k.Args) >= 2 {
+				if tv, ok := fn.Pkg.Info.Types[k.Args[1]]; ok && tv.Value != nil && constant.StringVal(tv.Value) == "Worker.Discard" {
+					found = true
+				}
+			}
+			return true
+		})
+		return found
+	}
+	isSetLost := func(st ast.Stmt) bool {
+		es, ok := st.(*ast.ExprStmt)
+		if !ok {
+			if d, ok := st.(*ast.DeferStmt); ok {
+				return fn.Pkg.CalleeName(d.Call) == "exec.(*Task).Set"
+			}
+			return false
+		}
+		k, ok := es.X.(*ast.CallExpr)
+		return ok && fn.Pkg.CalleeName(k) == "exec.(*Task).Set"
+	}
+	// the owned path: top-level statements after the last early-return if
+	start := 0
+	for i, st := range fn.Body.List {
+		if ifs, ok := st.(*ast.IfStmt); ok && blockTerminates(fn.Pkg, ifs.Body) {
+			start = i + 1
+		}
+	}
+	rpcAt, setBefore, setAfter, deferredSet := -1, false, false, false
+	for i, st := range fn.Body.List[start:] {
+		switch {
+		case isRPC(st) && rpcAt < 0:
+			rpcAt = i
+		case isSetLost(st):
+			if _, isDefer := st.(*ast.DeferStmt); isDefer {
+				deferredSet = true
+			} else if rpcAt < 0 {
+				setBefore = true
+			} else {
+				setAfter = true
+			}
+		}
+	}
+	c.Check(rpcAt >= 0 && !setBefore && (setAfter || deferredSet), fq+"|worker-released-before-the-task-is-lost", pr.Pos(fn.Body.Pos()),
+		"(*sliceMachine).Discard marks the task lost before (or without) the Worker.Discard call on the path where the machine owns it: an evaluation woken by that broadcast can resubmit the task while the worker still holds it as OK — Worker.Run returns success without recomputing, the late Worker.Discard deletes the output, and the driver keeps a task that is OK with no data behind it (its consumers are lost until they fail with \"too many tries\")")
+}
